@@ -14,7 +14,7 @@
 (*   lo[a],hi[a]: rank of the least / greatest element of atom a among all atoms                    *)
 (*   sh[j][a]   : atom that atom a is mapped to by offered offset j (0 = shifted out of the         *)
 (*                universe, -1 = not expressible; such calls are never issued)                      *)
-EXTENDS Integers, Sequences, FiniteSets, FiniteSetsExt, Nums
+EXTENDS Integers, Sequences, FiniteSets, FiniteSetsExt, Nums, RoaringSerial
 
 Slots == 1..6
 
@@ -54,7 +54,7 @@ Shifted(U, S, j) == {U.sh[j][a] : a \in S} \ {0}
 Target(k) ==
   CASE k.op \in {"New", "Build", "BitmapOf", "Clone", "AndS", "OrS", "XorS", "AndNotS", "FlipS", "AddOffset",
                  "DenseRT", "BitSetRT", "FastOr", "HeapOr", "ParOr", "ParHeapOr", "FastAnd", "ParAnd", "HeapXor",
-                 "Load", "FrozenRT"} -> k.dst
+                 "Load", "FrozenRT", "LoadLegal"} -> k.dst
     [] k.op \in {"Add", "AddInt", "CheckedAdd", "Remove", "CheckedRemove", "AddMany", "AddRange", "RemoveRange",
                  "Flip", "Clear", "RunOptimize", "SetCOW", "Detach", "And", "Or", "Xor", "AndNot", "AndAny"} -> k.x
     [] OTHER -> 0
@@ -66,7 +66,7 @@ Reads(k) ==
 \* New content of the target slot.
 NewContent(U, c, k) ==
   CASE k.op = "New" -> {}
-    [] k.op \in {"Build", "BitmapOf"} -> ToSet(As(k))
+    [] k.op \in {"Build", "BitmapOf", "LoadLegal"} -> ToSet(As(k))
     [] k.op \in {"Clone", "DenseRT", "BitSetRT", "Load", "FrozenRT"} -> c[k.x]
     [] k.op \in {"Add", "AddInt", "CheckedAdd"} -> c[k.x] \cup {k.a}
     [] k.op \in {"Remove", "CheckedRemove"} -> c[k.x] \ {k.a}
@@ -124,10 +124,22 @@ SelectExpected(U, S, i) ==
           THEN [a |-> MinAtom(U, inCell), pos |-> "b"]     \* a one-element cell content
           ELSE IF NEq(i, CumBefore(U, S, cl)) THEN LmFirst(U, inCell) ELSE LmLast(U, inCell)
 
+\* Calls of the serialization family return a record; the set of violated clauses is reported by name.
+SerialClauses(k, r) ==
+  CASE k.op = "Ser" -> AccountingViolations(r) \cup (IF r.err THEN {} ELSE PortableViolations(r.f) \cup WriterViolations(r.f, r.kinds))
+    [] k.op = "Load" -> LoadViolations(r)
+    [] k.op = "WriteFail" -> (IF r.err THEN {} ELSE {"failed-writer-not-reported"}) \cup (IF r.nle THEN {} ELSE {"returned-more-than-written"})
+    [] k.op = "Freeze" -> FrozenViolations(r)
+    [] k.op = "FrozenRT" -> IF r.err THEN {"frozen-view-error"} ELSE {}
+    [] k.op = "LoadLegal" -> IF r.err THEN {"legal-stream-rejected"} ELSE {}
+    [] OTHER -> {}
+
+
 HasResult(k) ==
   k.op \in {"CheckedAdd", "CheckedRemove", "AndCard", "OrCard", "Intersects", "Equals", "Contains", "IsEmpty",
             "Card", "Min", "Max", "Rank", "Select", "CardInRange", "IntersectsInterval", "NextValue",
-            "PreviousValue", "NextAbsentValue", "PreviousAbsentValue", "ToArray", "ChecksumEq", "ChecksumRT"}
+            "PreviousValue", "NextAbsentValue", "PreviousAbsentValue", "ToArray", "ChecksumEq", "ChecksumRT",
+            "Ser", "Load", "WriteFail", "Freeze", "FrozenRT", "LoadLegal"}
 
 ResultOK(U, c, k, r) ==
   CASE k.op = "CheckedAdd" -> r = (k.a \notin c[k.x])
@@ -152,10 +164,10 @@ ResultOK(U, c, k, r) ==
     [] k.op = "ToArray" -> r = W(U, c[k.x])                      \* length; the listing itself is `arr`
     [] k.op = "ChecksumEq" -> (c[k.x] = c[k.y]) => (r = TRUE)   \* equal sets hash equally
     [] k.op = "ChecksumRT" -> r = TRUE
-    [] OTHER -> TRUE
+    [] OTHER -> SerialClauses(k, r) = {}
 
 \* Calls that also return a listing of a set (decoded independently by the harness) name the set here.
-HasListing(k) == k.op \in {"ToArray", "DenseRT", "BitSetRT"}
+HasListing(k) == k.op \in {"ToArray", "DenseRT", "BitSetRT", "Ser", "Freeze"}
 ListingOf(U, c, k) == c[k.x]
 
 ---------------------------------------------------------------------------
